@@ -576,8 +576,9 @@ func runC07(c *Ctx) {
 		var convErrs []ssa.Value
 		eachInstr(cv, func(_ *ssa.BasicBlock, _ int, ins ssa.Instruction) {
 			if call, ok := ins.(*ssa.Call); ok {
-				switch callName(call) {
-				case "strconv.ParseInt", "strconv.ParseFloat", interpPath + ".parseBool", "strconv.ParseBool", interpPath + ".convertValue":
+				// only the conversion of another member (a recursive convertValue) counts: a second parser tried on
+				// the same text after the first refused it (ParseFloat after ParseInt) is exactly the leniency meant
+				if callName(call) == interpPath+".convertValue" {
 					convErrs = append(convErrs, extractOf(call, 1)...)
 				}
 			}
